@@ -129,6 +129,13 @@ def configs(rnd, n):
         k = rnd.choice([1, 2, 2, 3])
         out.append(dict(gram=[rnd.choice(["Y", "Y", "E", "E", "F", "S", "Q", "Q", "P", "K", "K", "R", "Z", "Z"]) for _ in range(k)], db=rnd.choice(["RuleDB", "RuleDBForgetStrategy", "RuleDBForest"]),
                         seed=rnd.randrange(10**6), perc=rnd.choice([100, 20, 1]), smallest=False, expand_verified=False))
+    # U-gram variant W: expanding the verified class needs a reverse rule and gives a class of the original specification
+    # another rule than it had there
+    wrnd = random.Random(n * 7919 + 19)
+    for i in range(max(3, n // 16)):
+        out.append(dict(gram=["W"] + [wrnd.choice(["Y", "F", "P", "W"]) for _ in range(wrnd.choice([0, 1, 1]))],
+                        db=wrnd.choice(["RuleDB", "RuleDBForgetStrategy", "RuleDBForest"]), seed=wrnd.randrange(10**6), perc=wrnd.choice([100, 20, 1]),
+                        smallest=False, expand_verified=False))
     return out
 
 
